@@ -84,6 +84,8 @@ func (s *sut) judge(pre *snapshotState, res *opResult, ev *events) bool {
 		r.Eval("")
 		return false
 	}
+	s.reportNoReceipts(post, res.storedWithoutReceipts)
+	s.prev = pre
 	s.cur = post
 	r.Count("ops_"+res.kind, 1)
 	errs := ""
@@ -92,6 +94,15 @@ func (s *sut) judge(pre *snapshotState, res *opResult, ev *events) bool {
 	}
 	O := pre.canon[:pre.headNum+1]
 	N := post.canon[:post.headNum+1]
+	if res.kind == "restart" {
+		s.importedUnderHeaderChain = false // fresh lookup cache
+	}
+	if (res.kind == "insert" || res.kind == "setcanonical") && uint64(len(pre.canon)-1) > pre.headNum && O[len(O)-1] != N[len(N)-1] {
+		// imported while the header chain was ahead of the head block: reorg() (which cleans the
+		// index above the head and purges the lookup cache) is not necessarily invoked (known finding F2)
+		s.importedUnderHeaderChain = true
+	}
+	s.lastKind = res.kind
 	fork := 0
 	for fork+1 < len(O) && fork+1 < len(N) && O[fork+1] == N[fork+1] {
 		fork++
@@ -182,14 +193,14 @@ func (s *sut) judge(pre *snapshotState, res *opResult, ev *events) bool {
 			switch {
 			case f == fork && res.kind == "setcanonical" && res.err == nil && len(N) == fork+1:
 				variants = [][]*mblock{{res.target}} // rewind to an ancestor: the target is announced
-			case f == fork && res.kind == "insert" && f > 0 && inSeg[N[f].hash()] && !res.silentOK[N[f].hash()]:
-				// a canonical ancestor whose state was pruned was submitted again: it is
-				// re-executed and the head is rewound to it
+			case res.kind == "insert" && f > 0:
+				// the block the chain is rewound to may itself be re-executed (pruned state,
+				// missing snapshot layer) and is then announced again as new head
 				variants = [][]*mblock{N[f+1:], N[f:]}
 			case f == fork:
 				variants = [][]*mblock{N[f+1:]}
 			default:
-				variants = [][]*mblock{N[f+1:], N[f:]}
+				variants = [][]*mblock{N[f+1:]}
 			}
 			for vi, v := range variants {
 				c, sl, d := matchAdded(ev.logs, v, silentOK)
@@ -252,7 +263,7 @@ func (s *sut) judge(pre *snapshotState, res *opResult, ev *events) bool {
 		}
 		if nSilentLogs > 0 {
 			r.Count("known_reimport_blocks_without_log_event", nSilentLogs)
-			if strictKnownReimport {
+			{
 				s.viol("I4:known-block-reimport:added-logs-not-emitted", fmt.Sprintf("InsertChain made %d already-known blocks with logs canonical (%v) without emitting their logs (the logs of the %d dropped blocks were announced as removed)", nSilentLogs, silentNames, len(dropped)), merge(w, map[string]any{"added_got": descLogs(ev.logs), "added_want": descLogs(concatLogs(announce))}))
 			}
 		}
